@@ -758,8 +758,6 @@ def check(tier, seed):
     t2 = time.time()
     for su, st in pairs:
         for entry, chk in entries:
-            if tier == 'quick' and entry in ('diff_check',) and (len(su) == 3 and len(st) == 3):
-                continue
             sreal.append((su, st, entry, chk, real_shape_outcome(su, st, entry)))
             slines.append(f'{chk} {fmt_shape(su)} {fmt_shape(st)}')
     t_shapes = time.time() - t2
@@ -872,8 +870,8 @@ def check(tier, seed):
     if mism:
         broken.append(dict(kind='correspondence', stream='real autograd (neurodiffeq.diff) vs evalF(diffLoop)',
                            mismatches=mism[:3], count=len(mism)))
-        # the model is proved to be the true derivative: a disagreement of the real code with it is a failing input
-        for m in mism[:3]:
+        # while the proofs check, the model is the true derivative: a disagreement of the real code with it is a failing input
+        for m in (mism[:3] if ok else []):
             if 'differences' in m and not any(f['program']['id'] == m['program']['id'] for f in failing):
                 failing.append(dict(program=m['program'], violated=m['differences']))
 
